@@ -35,6 +35,12 @@ def plans(tier):
     ]
     if tier == "thorough":
         return bplans + [
+            dict(fmt="fb+reuse", eps=2, depth=4, letters=small,
+                 readers=("sync",)),
+            dict(fmt="npz+reuse", eps=2, depth=3, letters=small,
+                 readers=("sync",)),
+            dict(fmt="tfrec+reuse", eps=2, depth=2, letters=small,
+                 readers=("sync",)),
             dict(fmt="fb", eps=2, depth=4, letters=base, readers=("sync",)),
             dict(fmt="fb", eps=2, depth=2, letters=base,
                  readers=READERS["fb"]),
@@ -46,6 +52,10 @@ def plans(tier):
             dict(fmt="fb", eps=3, depth=4, letters=small, readers=("sync",)),
         ]
     return bplans + [
+        dict(fmt="fb+reuse", eps=2, depth=3, letters=small,
+             readers=("sync",)),
+        dict(fmt="npz+reuse", eps=2, depth=2, letters=small,
+             readers=("sync",)),
         dict(fmt="fb", eps=2, depth=3, letters=base, readers=("sync",)),
         dict(fmt="fb", eps=2, depth=2, letters=small, readers=READERS["fb"]),
         dict(fmt="npz", eps=2, depth=2, letters=base,
